@@ -240,12 +240,90 @@ func checkStep(c *hx.Ctx, seq *jSeq, i int, k *jCall, failed bool, before, after
 				got(map[string]string{"token": tok, "owner": hexOf(e.O), "spender": hexOf(e.S)}), "owner witnessed")
 		}
 	}
+	checkExact(c, in, got, k, seq.Net, before, after)
 	// ONT calls never debit anybody's ONG but the pool
 	if k.Tok == "ONT" {
 		for _, e := range before.Bal["ONG"] {
 			if e.A != ontC && after.bal("ONG", e.A).Cmp(e.V) < 0 {
 				c.Fail("ont-call-debited-ong", "an ONT call moves ONG only out of the ONT contract's balance", in, got(hexOf(e.A)), "unchanged or increased")
 			}
+		}
+	}
+}
+
+// checkExact: reference bookkeeping in exact integer arithmetic (base units) of what a successful
+// call does to its own token: every movement debits and credits the same amount, approve stores
+// exactly the amount, transferFrom lowers the allowance by exactly the amount.  The stored
+// records (decoded by the independent decoder) must show exactly that.
+func checkExact(c *hx.Ctx, in interface{}, got func(interface{}) interface{}, k *jCall, net uint32, before, after *dump) {
+	tok := k.Tok
+	_, wrap := v2onAt(net, k.Height)
+	amount := func(s string) *big.Int {
+		v := bigOf(s)
+		if k.V2 {
+			return v
+		}
+		if wrap && tok == "ONT" && k.Kind == "transfer" {
+			v = new(big.Int).Mod(v, two64)
+		}
+		return new(big.Int).Mul(v, scale)
+	}
+	bal := map[common.Address]*big.Int{}
+	getB := func(a common.Address) *big.Int {
+		if v, ok := bal[a]; ok {
+			return v
+		}
+		bal[a] = new(big.Int).Set(before.bal(tok, a))
+		return bal[a]
+	}
+	type pk struct{ o, s common.Address }
+	al := map[pk]*big.Int{}
+	move := func(from, to common.Address, v *big.Int) {
+		getB(from).Sub(getB(from), v)
+		getB(to).Add(getB(to), v)
+	}
+	switch k.Kind {
+	case "transfer":
+		for _, st := range k.States {
+			if v := amount(st.Value); v.Sign() != 0 {
+				move(addrOf(st.From), addrOf(st.To), v)
+			}
+		}
+	case "approve":
+		al[pk{addrOf(k.From), addrOf(k.To)}] = amount(k.Value)
+	default:
+		if v := amount(k.Value); v.Sign() != 0 {
+			o, sp := addrOf(k.From), addrOf(k.Sender)
+			al[pk{o, sp}] = new(big.Int).Sub(before.allow(tok, o, sp), v)
+			move(o, addrOf(k.To), v)
+		}
+	}
+	for _, e := range before.Bal[tok] {
+		getB(e.A)
+	}
+	for _, e := range after.Bal[tok] {
+		getB(e.A)
+	}
+	for a, want := range bal {
+		if have := after.bal(tok, a); have.Cmp(want) != 0 {
+			c.Fail("balance:credit-differs-from-debit", "every movement debits and credits exactly its amount (base units)", in,
+				got(map[string]string{"token": tok, "account": hexOf(a), "stored": have.String(), "missing": new(big.Int).Sub(want, have).String()}), want.String())
+		}
+	}
+	for _, e := range before.Allow[tok] {
+		if _, ok := al[pk{e.O, e.S}]; !ok {
+			al[pk{e.O, e.S}] = e.V
+		}
+	}
+	for _, e := range after.Allow[tok] {
+		if _, ok := al[pk{e.O, e.S}]; !ok {
+			al[pk{e.O, e.S}] = new(big.Int)
+		}
+	}
+	for key, want := range al {
+		if have := after.allow(tok, key.o, key.s); have.Cmp(want) != 0 {
+			c.Fail("balance:allowance-differs", "approve stores exactly the amount, transferFrom lowers the allowance by exactly the amount", in,
+				got(map[string]string{"token": tok, "owner": hexOf(key.o), "spender": hexOf(key.s), "stored": have.String()}), want.String())
 		}
 	}
 }
